@@ -710,6 +710,24 @@ def arrivals(rng, n, span_s=1.0, marks=(), start0=None):
     return out, sorted(tags)
 
 
+# decimal values (4 places, below 5 s) whose nanosecond quantisation int(v * 1e9) lands 1 ns low: 0.0157, 0.0314,
+# 0.1251, 1.001, 2.01, 4.1 ...  A timer configured with such a value disagrees by < 1 ns with float-second arithmetic.
+LOSSY = [k / 10000 for k in range(1, 50001) if int((k / 10000) * 1e9) != k * 10**5]
+
+
+def lossy(rng, lo, hi):
+    """A 'lossy' decimal in [lo, hi] (None if there is none)."""
+    import bisect
+
+    a, b = bisect.bisect_left(LOSSY, lo), bisect.bisect_right(LOSSY, hi)
+    return LOSSY[rng.randrange(a, b)] if b > a else None
+
+
+def rel(rng, ref, factors=(0.25, 0.5, 0.9, 1.0, 1.1, 2.0, 4.0)):
+    """A timing value shorter than / equal to / longer than another timing it interacts with."""
+    return max(0.0001, round(ref * rng.choice(factors), 6))
+
+
 def lat(rng, zero_p=0.15, lo=0.0005, hi=0.2):
     """A latency: exactly 0 sometimes, otherwise a 'decimal' value (k/1000 or
     k/100 s: values whose nanosecond quantisation is not always exact in binary
@@ -717,6 +735,10 @@ def lat(rng, zero_p=0.15, lo=0.0005, hi=0.2):
     if rng.random() < zero_p:
         return 0.0
     r = rng.random()
+    if r > 0.88:
+        v = lossy(rng, max(lo, 0.001), hi)
+        if v is not None:
+            return v
     if hi >= 0.1 and r < 0.12:
         return 0.1 * rng.randint(1, max(1, int(hi * 10)))          # 0.1*k: 0.30000000000000004 and friends
     if r < 0.5:
